@@ -958,9 +958,10 @@ UNITS = [POSITION]
 
 class KFn:
     def __init__(self, key, path, cls, py, lean, binders, fields, params, ret, statement, defs, kind='pure', subst=(), sink=None,
-                 loop_bind=None, obj_types=None, expr_subst=None, proof=None):
+                 loop_bind=None, obj_types=None, expr_subst=None, proof=None, components=None):
         self.expr_subst = expr_subst or {}
         self.proof = proof
+        self.components = components or []     # [(suffix, statement)]: component-wise obligations (same proof tactic)
         self.key, self.path, self.cls, self.py, self.lean = key, path, cls, py, lean
         self.binders = binders          # [(lean name, lean type)]
         self.fields = fields            # python self attribute -> sym
@@ -1209,7 +1210,13 @@ KFNS = [
         subst=[('get_asset_latest_bid_ask_price', _const_subst(('tup', [V('bid', 'num'), V('ask', 'num')]))), ('fee_model.calc_total_cost', _fee_subst)],
         statement='(b : Qs.Broker α) (q : Qs.Quotes α) (o : Qs.Order) (cash bid ask : α) (h : q o.asset = some (bid, ask)) :\n'
                   '    Qs.Broker.makeTxn b q o = .ok (GEN b.clock b.fee cash bid ask o)',
-        defs=['Qs.Broker.makeTxn', 'Qs.FeeModel.totalCost', 'Qs.Order.direction', 'Qs.dirOf']),
+        defs=['Qs.Broker.makeTxn', 'Qs.FeeModel.totalCost', 'Qs.Order.direction', 'Qs.dirOf'],
+        components=[
+            ('fill', '%s∃ tx, Qs.Broker.makeTxn b q o = .ok tx ∧ tx.qty = (GEN b.clock b.fee cash bid ask o).qty ∧ '
+                     'tx.asset = (GEN b.clock b.fee cash bid ask o).asset ∧ tx.time = (GEN b.clock b.fee cash bid ask o).time' % '(b : Qs.Broker α) (q : Qs.Quotes α) (o : Qs.Order) (cash bid ask : α) (h : q o.asset = some (bid, ask)) :\n    '),
+            ('price', '%s∃ tx, Qs.Broker.makeTxn b q o = .ok tx ∧ tx.price = (GEN b.clock b.fee cash bid ask o).price' % '(b : Qs.Broker α) (q : Qs.Quotes α) (o : Qs.Order) (cash bid ask : α) (h : q o.asset = some (bid, ask)) :\n    '),
+            ('commission', '%s∃ tx, Qs.Broker.makeTxn b q o = .ok tx ∧ tx.commission = (GEN b.clock b.fee cash bid ask o).commission' % '(b : Qs.Broker α) (q : Qs.Quotes α) (o : Qs.Order) (cash bid ask : α) (h : q o.asset = some (bid, ask)) :\n    '),
+        ]),
 ]
 
 # ------------------------------------------------------------------------------------------------------------
@@ -1583,6 +1590,8 @@ def generate(outdir=None, verbose=False, omit_defs=(), omit_thms=()):
             text, why = None, 'the generated definition does not typecheck'
         if text is None:
             status[fn.key] = dict(translated=False, reason=why, python='%s.%s' % (fn.cls, fn.py), file=fn.path, unit='Kernels')
+            for suf, _c in fn.components:
+                status[fn.key + '#' + suf] = dict(status[fn.key])
             gen += '-- %s.%s: not translatable (%s)\n\n' % (fn.cls, fn.py, why)
             continue
         ns, nm = fn.lean.split('.')
@@ -1606,6 +1615,20 @@ def generate(outdir=None, verbose=False, omit_defs=(), omit_thms=()):
                     name, fn.statement.replace('GEN', 'Qs.Gen.' + fn.lean), ', '.join(core), ', '.join(core))
             ent['thm_span'] = [t0, tie.count('\n')]
         status[fn.key] = ent
+        for suf, cstmt in fn.components:
+            cname = '%s__%s' % (name, suf)
+            cent = dict(translated=True, python='%s.%s' % (fn.cls, fn.py), file=fn.path, unit='Kernels', theorem='Qs.Tie.' + cname,
+                        def_span=ent['def_span'])
+            if 'Qs.Tie.' + cname in omit_thms:
+                cent['proved'] = False
+                tie += '-- %s: the proof does not check against the current source\n\n' % cname
+            else:
+                t0 = tie.count('\n') + 1
+                core = ['Qs.Gen.' + fn.lean] + fn.defs
+                tie += 'theorem %s %s := by\n  first\n  | qs_tie_h h [%s]\n  | (simp only [%s, h] <;> split_ifs <;> simp_all)\n\n' % (
+                    cname, cstmt.replace('GEN', 'Qs.Gen.' + fn.lean), ', '.join(core), ', '.join(core))
+                cent['thm_span'] = [t0, tie.count('\n')]
+            status[fn.key + '#' + suf] = cent
     for fn in EFNS:
         text, why = translate_efn(fn)
         if text is not None and fn.key in omit_defs:
